@@ -472,6 +472,42 @@ def witnesses():
     return w
 
 
+def family_witness(name, args, remove):
+    p = os.path.join(SCRATCH, name + ".rs")
+    a = args % p
+    attr = "#[interthread::family(%s)]" % a
+    item = IMPL_W % ""
+    before = "pub struct MyActor(i8);\n"
+    src = before + attr + "\n" + item + "\nfn after() {}\n"
+    open(p, "w").write(src)
+    return {"name": name, "path": p, "attr_args": a, "attr": attr, "item": item, "src": src, "a0": len(before), "a1": len(before) + len(attr),
+            "i1": len(before) + len(attr) + 1 + len(item), "remove": remove, "sep": "\n"}
+
+
+def family_e2e(rep):
+    """write-to-file through `family`: the attribute is cut out of the file only when every member is written as a whole; otherwise only the
+    file markers go (members without a marker keep generating their code), and the block follows the impl"""
+    ws = [family_witness("fam_one_member_whole", 'file="%s", actor(first_name="U", edit(file)), actor(first_name="V")', False),
+          family_witness("fam_all_members_whole", 'file="%s", actor(first_name="U", edit(file)), actor(first_name="V", edit(file))', True),
+          family_witness("fam_member_partial", 'file="%s", actor(first_name="U", edit(file(live))), actor(first_name="V")', False),
+          family_witness("fam_two_kinds", 'file="%s", actor(first_name="U", edit(file)), actor(first_name="V", edit(live(file(def))))', False)]
+    res = hook.run_parallel([("family", [c["attr_args"], c["item"]]) for c in ws], tag="c16fam", shards=4, timeout=120)
+    if res is None:
+        raise Infra("family e2e batch timed out")
+    for c, (cls, f) in zip(ws, res):
+        rep.evaluations += 1
+        rep.count("family_e2e", c["name"])
+        rep.nontrivial.add(("family-e2e", c["name"]))
+        after = open(c["path"]).read()
+        if cls != "TOKENS":
+            ok, why = False, "legal family not expanded: %s %s" % (cls, (f[0] if f else "")[:200])
+        else:
+            ok, why, _ = e2e_oracle(c, after)
+        if not rep.oblige(ok):
+            rep.violation("family_e2e_" + c["name"], {"what": "family write-to-file: " + why, "source": c["src"], "attr": c["attr"], "item": c["item"], "observed": after,
+                                                     "expected": "attribute removed" if c["remove"] else "attribute kept, only its `file` markers removed"}, found=True)
+
+
 REPAIRED = {"char-blank-or-comma", "char-escaped-quote", "attr-directly-followed", "file-list-trailing-comma", "edit-file-trailing-comma"}
 
 
@@ -530,6 +566,7 @@ def run(rep):
     surgery_tie(rep, rng)
     e2e(rep, rng)
     replay_known(rep)
+    family_e2e(rep)
     rep.assumptions += [
         "ASCII source files and attributes (byte offsets = char offsets in the Coq text models); non-ASCII is outside the theorems' domain",
         "the item search (ItemCodeBlock::get_item_code) is modelled by its located offsets (attribute start/end, impl end), checked per case against the generator's ground truth; syn::parse_str equality inside it is not modelled",
